@@ -57,6 +57,7 @@ type vGen struct {
 	inFunc int
 	inputs int // top-level straight-line ইনপুট calls
 	stmts  int
+	pure   bool // no ইনপুট, no ক্লক (for oracles that compare runs under different clocks)
 }
 
 func (g *vGen) emit(format string, a ...interface{}) {
@@ -196,6 +197,9 @@ func (g *vGen) num(d int) string {
 	case 12:
 		if f := g.pickVar(vF0, "f0"); f != nil {
 			return f.name + "()"
+		}
+		if g.pure {
+			return "7"
 		}
 		return FnClock + "()"
 	case 13:
@@ -414,7 +418,7 @@ func (g *vGen) stmt(depth int) {
 	case 3:
 		name := g.newName("s", vS)
 		e := g.str(2)
-		if g.inLoop == 0 && g.inFunc == 0 && Chance(g.s, "input", 1, 3) {
+		if !g.pure && g.inLoop == 0 && g.inFunc == 0 && Chance(g.s, "input", 1, 3) {
 			g.inputs++
 			e = FnInput + "()"
 			if Bool(g.s, "prompt") {
@@ -755,8 +759,11 @@ func (g *vGen) boundedRecursion() {
 }
 
 // validProgram returns the program text and the number of stdin lines it reads.
-func validProgram(s Src) (string, int) {
-	g := &vGen{s: s}
+func validProgram(s Src) (string, int) { return validProgramOpt(s, false) }
+
+// validProgramOpt: with pure set, the program neither reads input nor the clock.
+func validProgramOpt(s Src, pure bool) (string, int) {
+	g := &vGen{s: s, pure: pure}
 	g.push()
 	n := s.Int("ntop", 3, 14)
 	for i := 0; i < n; i++ {
